@@ -22,6 +22,29 @@ CLAIMED = {
     "C08": ("trace validation of * against Scale + ScaleLaws model-checked (TLC)",
             "Mul events are compared by TLC with HgTree!Scale; the ghost multiset is rescaled so `sem` states that scaling equals "
             "refilling with scaled weights; continuations fill / merge / hash / serialise the result."),
+    "C03": ("trace validation of fill.numpy against the row-wise fold (TLC), modulo zero-weight sparse bins",
+            "FillNumpy events are compared by TLC with Strip(FoldFill(...)) - the fold of the row-wise Fill over the batch - "
+            "for weight forms 1 / scalar / array, batches of 0..4 rows over the critical alphabets, and splits into "
+            "successive batches (BatchSplit is model-checked); inputs are compared bytewise before/after."),
+    "C04": ("trace validation of JSON reload (state, strictness, fixpoint, interchangeability) by TLC",
+            "Reload events (via dict, string, file) must reproduce the content exactly, dump with allow_nan=False and be a "
+            "fixpoint of toJson; reloaded slots then take part in +, *, zero(), copy(), += and further reloads like any other."),
+    "C09": ("trace validation of == against content equality (TLC)",
+            "Eq events log a==b, b==a, a!=b at tolerance 0 and 1e-12; TLC requires symmetry, negation, FALSE whenever the "
+            "projected contents differ, TRUE along copy/pickle/reload lineage, and that tolerances only widen."),
+    "C10": ("trace validation of rejected merges: outcome and unchanged operands (TLC, CompatD)",
+            "For every single-parameter structural variant at every depth TLC requires + and += to raise (CompatD false) and "
+            "both operands to stay exactly as they were."),
+    "C11": ("trace validation of pickle clones and their continuations (TLC)",
+            "Pickle events must reproduce content, stay fillable and keep equal to the original under identical further fills "
+            "and merges, for lambda / def / string / named / cached quantities."),
+    "C12": ("trace validation of failing fills: outcome and full rollback (TLC, Raises)",
+            "HgTree!Raises decides from the routing path whether a fill reaches a failing quantity; such a fill must raise and "
+            "leave every slot unchanged; the final state must equal Sem of the surviving records."),
+    "C16": ("trace validation of shared-node detection (TLC, SharedFillable)",
+            "HgTree!SharedFillable decides from the descriptor whether one object sits at two installed positions; filling "
+            "such a tree must raise with no state change, on first and later fills, row-wise and vectorised; shared "
+            "templates must never be rejected."),
 }
 
 
